@@ -385,6 +385,7 @@ def rule_emit(cx, rid):
         ("elif/empty-body", [cls["IfStatement"](branches=[CB(condition="H_ca", body=[S(ms=1)]), CB(condition="H_cb", body=[]), CB(condition="H_cc", body=[S(ms=2)])], else_body=[S(ms=3)])], ["H_ca", "H_cb", "H_cc", "delay(1)", "delay(2)", "delay(3)"]),
         ("elif/first-empty", [cls["IfStatement"](branches=[CB(condition="H_ca", body=[]), CB(condition="H_cb", body=[S(ms=2)])], else_body=[])], ["H_ca", "H_cb", "delay(2)"]),
         ("try/empty-handler", [cls["TryStatement"](try_body=[S(ms=1)], handlers=[cls["CatchClause"](exception=None, target=None, body=[])])] if "TryStatement" in cls else None, ["delay(1)"]),
+        ("else/nested-if-then-more", [cls["IfStatement"](branches=[CB(condition="H_ca", body=[S(ms=1)])], else_body=[cls["IfStatement"](branches=[CB(condition="H_cb", body=[S(ms=2)])], else_body=[S(ms=4)]), S(ms=5), S(ms=6)])], ["H_ca", "H_cb", "delay(1)", "delay(2)", "delay(4)", "delay(5)", "delay(6)"]),
         ("while/nested-empty", [cls["WhileLoop"](condition="H_cw", body=[cls["IfStatement"](branches=[CB(condition="H_ca", body=[])], else_body=[])])], ["H_cw", "H_ca"]),
     ]
     fd = cls["FunctionDef"]
@@ -490,6 +491,18 @@ def run(cx):
     r.check(not ploc.rebound("src"), "parse/src-not-rewritten", (pm, pf), "parse() rewrites its source text before splitting it")
     # the known limitation: physical, not logical lines
     r.fail("parse/physical-lines", (pm, ldefs[0] if ldefs else pf), "statement boundaries are physical lines (src.splitlines()): parenthesised multi-line statements and docstring bodies are dispatched line by line")
+
+    # the function text kept for later re-specialisation (another call signature) is the block itself: same lines, same
+    # indentation - otherwise the second overload is parsed from a different layout than the first
+    pf_ = pm.func("_parse_function")
+    stores_ = [n for n in walk_local(pf_) if isinstance(n, ast.Assign) and isinstance(n.targets[0], ast.Subscript) and "function_sources" in norm(n.targets[0])]
+    if len(stores_) != 1:
+        raise AnalysisError("_parse_function: the store into ctx['function_sources'] was not recognised")
+    val_ = stores_[0].value
+    kept = val_.elts[1] if isinstance(val_, ast.Tuple) and len(val_.elts) == 2 else None
+    kept_src = Locals(pf_).resolve(kept) if kept is not None else None
+    ok_keep = kept_src is not None and norm(kept_src) in ("list(block)", "block", "block[:]", "tuple(block)", "block.copy()")
+    r.check(ok_keep, "_parse_function/kept-source=block", (pm, stores_[0]), f"the lines kept for re-parsing are `{norm(kept_src) if kept_src is not None else '?'}`, not the function's own block: stripped or filtered lines lose the indentation that decides block structure, so another overload of the same def gets different control flow")
 
     # ---- C07-GUARD-SHARED --------------------------------------------------------------------
     r = cx.rule("C07-GUARD-SHARED", "a name set that guards a fall-through arm is created in every scope's context up front (parse()'s ctx literal or the dispatcher's setdefault prologue), so scopes copied earlier (function bodies, branches) see later declarations", floor=15)
